@@ -205,7 +205,7 @@ pub fn run(ctx: &mut LaneCtx) {
     ctx.run_sub(
         SubSpec {
             name: "live-exception",
-            cases: (320, 30_000),
+            cases: (960, 30_000),
             rule: "generated targets x {crash context on/off} x blamed thread {main, any other listed thread, a thread id outside the target}; oracle = exception record fields, context equality with the supplied ucontext via the independent table, shared context location with the blamed thread's entry; every case non-trivial, classes = the four (context, presence) quadrants; distinct = hash of case",
             strategy: crate::props::fid::case_strategy(if ctx.tier == Tier::Quick { 12 } else { 64 }, 0).boxed(),
             max_shrink_iters: 150,
